@@ -15,7 +15,7 @@ REAL = ["blox.checkpointing.assess_performance_and_checkpoint", "CheckpointState
 STUB = ["episode outcomes (scripted)", "environment (SimEnv) and logger (ProbeLogger) in TrainSim plans"]
 ASSUMPTIONS = ["'crosses the threshold' = epoch_before < threshold <= epoch_after; threshold 0 is therefore never crossed",
                "episodes that end before learning_starts belong to no assessment window"]
-TIERS = {"quick": {"runs": 3000}, "thorough": {"runs": 100000}}
+TIERS = {"quick": {"runs": 3024}, "thorough": {"runs": 100400}}
 REQUIRED = ["releases", "checkpoint_updates", "assessment_cut_short", "window_switch", "equal_returns", "td7_timelines"]
 REQUIRED_QUICK = REQUIRED
 CHUNK = 300
@@ -23,7 +23,22 @@ SHRINK_LISTS = [["episodes"], ["env", "script"]]
 SHRINK_INTS = []
 
 
+BASE = {"quick": 3000, "thorough": 100000}  # additive extension: plans below these indices are those of the earlier tiers
+
+
 def make_plan(rng, tier, index):
+    if index >= BASE.get(tier, 10**9):
+        # train_td7 limited by total_episodes: the window that ends with the last budgeted episode is assessed as well
+        plan = trainplan.base_plan(rng, PROPERTY, ["C15", "C06"], "td7", T=rng.choice([45, 60]))
+        plan["alias"] = {"C06.a": "C15.f", "C06.b": "C15.f", "C06.c": "C15.f", "C06.e": "C15.f"}
+        plan["kind"] = "td7"
+        plan["logger"] = True
+        plan["monitor"] = True
+        plan["cfg"]["use_checkpoints"] = True
+        plan["cfg"]["learning_starts"] = rng.choice([0, 2, 5])
+        plan["env"]["script"] = trainplan.make_script(rng, 70, style=rng.choice(["short", "mixed"]))
+        plan["chain"][0]["total_episodes"] = rng.choice([2, 3, 4, 6])
+        return plan
     if index % 100 < 3:
         plan = trainplan.base_plan(rng, PROPERTY, ["C15", "C06"], "td7", T=rng.choice([20, 30, 45]))
         plan["alias"] = {"C06.a": "C15.f", "C06.b": "C15.f", "C06.c": "C15.f", "C06.e": "C15.f"}
